@@ -45,7 +45,19 @@ type Sched struct {
 	seq     int64
 
 	buggifyHits int
+
+	// entropy fault: crypto/rand reads number FailFrom .. FailFrom+FailCount-1 of task FailTask (counted per
+	// task, from 1, so that the fault point does not depend on the interleaving) return an error;
+	// FailCount 0 means every read from FailFrom on
+	FailTask, FailFrom, FailCount int
+	taskReads                     []int
+	failed                        int
 }
+
+// EntropyFailures is the number of reads that were made to fail.
+//
+//go:norace
+func (s *Sched) EntropyFailures() int { return s.failed }
 
 // SwitchRec is one context switch that actually happened.
 type SwitchRec struct {
@@ -57,7 +69,7 @@ type SwitchRec struct {
 // NewSched creates a scheduler for n tasks with the given schedule vector.
 func NewSched(n int, choices []uint16, libSeed uint64, buggify map[string]bool) *Sched {
 	s := &Sched{choices: choices, cur: -1, done: make([]bool, n), n: n, MaxSteps: 200000, Buggify: buggify, libSeed: libSeed,
-		sw: make([]SwitchRec, 1<<14), yields: make([]string, 1<<16)}
+		sw: make([]SwitchRec, 1<<14), yields: make([]string, 1<<16), FailTask: -1, taskReads: make([]int, n)}
 	for i := 0; i < n; i++ {
 		var seed [32]byte
 		binary.LittleEndian.PutUint64(seed[:8], libSeed)
@@ -221,7 +233,13 @@ func (r *SimReader) Read(p []byte) (int, error) {
 		return r.Fallback.Read(p)
 	}
 	r.S.Yield("crypto/rand.Read")
-	r.S.readers[id].Read(p)
+	s := r.S
+	s.taskReads[id]++
+	if k := s.taskReads[id]; int(id) == s.FailTask && s.FailFrom > 0 && k >= s.FailFrom && (s.FailCount == 0 || k < s.FailFrom+s.FailCount) {
+		s.failed++
+		return 0, ErrEntropy
+	}
+	s.readers[id].Read(p)
 	return len(p), nil
 }
 
